@@ -7,7 +7,11 @@ Open Scope Z_scope.
 (* obs per step: which probed keys are readable just before the event (after lazy expiry) and after it *)
 (* one call of the facade: a single model event, or delete_tags with several tags = the single-tag steps one after the other *)
 Inductive rev := One (e : tev) | ManyTags (ts : list string).
-Inductive case := CTags (reg : registry) (keys : list key) (h : list (Z * rev)) (o : list (list bool * list bool)).
+Inductive case :=
+| CTags (reg : registry) (keys : list key) (h : list (Z * rev)) (o : list (list bool * list bool))
+(* only the keys in `probed` are read between the commands (the others are watched without touching them: they stay in the
+   store past their deadline until a command meets them) *)
+| CTagsLazy (reg : registry) (probed keys : list key) (h : list (Z * rev)) (o : list (list bool * list bool)).
 
 Definition rstep (reg : registry) (keys : list key) (m : tmap) (now : Z) (e : rev) : tmap :=
   match e with
@@ -26,6 +30,20 @@ Fixpoint run_tags (reg : registry) (keys : list key) (m : tmap) (h : list (Z * r
       let before := readable keys (purge reg keys m t) t in
       let m' := rstep reg keys m t e in
       (before, readable keys m' t) :: run_tags reg keys m' r
+  end.
+
+Definition rstep_lazy (reg : registry) (probed keys : list key) (m : tmap) (now : Z) (e : rev) : tmap :=
+  match e with
+  | One e => tag_step_lazy reg probed keys m now e
+  | ManyTags ts => fold_left (fun m' t => tag_step_lazy reg probed keys m' now (TDeleteTags t)) ts (purge reg probed m now)
+  end.
+Fixpoint run_tags_lazy (reg : registry) (probed keys : list key) (m : tmap) (h : list (Z * rev)) : list (list bool * list bool) :=
+  match h with
+  | [] => []
+  | (t, e) :: r =>
+      let before := readable keys (purge reg probed m t) t in
+      let m' := rstep_lazy reg probed keys m t e in
+      (before, readable keys m' t) :: run_tags_lazy reg probed keys m' r
   end.
 
 (* ---------- oracle from observations ---------- *)
@@ -81,6 +99,13 @@ Fixpoint excl_f20 (reg : registry) (keys : list key) (m : tmap) (h : list (Z * t
       let m' := tag_step reg keys m t e in
       (match e with TSet _ _ _ tags | TIncr _ _ _ tags => f20_after m' t tags | _ => false end) || excl_f20 reg keys m' r
   end.
+Fixpoint excl_f20_lazy (reg : registry) (probed keys : list key) (m : tmap) (h : list (Z * tev)) : bool :=
+  match h with
+  | [] => false
+  | (t, e) :: r =>
+      let m' := tag_step_lazy reg probed keys m t e in
+      (match e with TSet _ _ _ tags | TIncr _ _ _ tags => f20_after m' t tags | _ => false end) || excl_f20_lazy reg probed keys m' r
+  end.
 (* F21: a key carrying a tag that the registry does not associate with it is explicitly deleted *)
 Fixpoint excl_f21 (reg : registry) (keys : list key) (i : list kinfo) (h : list (Z * tev)) : bool :=
   match h with
@@ -102,5 +127,9 @@ Definition judge (c : case) : verdict :=
   | CTags reg keys h o =>
       (list_eqb pair_eqb (run_tags reg keys empty h) o, ok_tags keys [] h o,
        (if excl_f20 reg keys empty (expand h) then [20%nat] else []) ++ (if excl_f21 reg keys [] (expand h) then [21%nat] else []))
+  | CTagsLazy reg probed keys h o =>
+      (list_eqb pair_eqb (run_tags_lazy reg probed keys empty h) o, ok_tags keys [] h o,
+       (if excl_f20_lazy reg probed keys empty (expand h) then [20%nat] else []) ++ (if excl_f21 reg keys [] (expand h) then [21%nat] else []))
   end.
-Definition explain (c : case) := match c with CTags reg keys h _ => run_tags reg keys empty h end.
+Definition explain (c : case) :=
+  match c with CTags reg keys h _ => run_tags reg keys empty h | CTagsLazy reg probed keys h _ => run_tags_lazy reg probed keys empty h end.
